@@ -134,6 +134,18 @@ def main(argv):
         good = nbad == 0
         ok &= good
         print("%s  unaltered traces: %d clause failures (expected 0)" % ("ok  " if good else "FAIL", nbad))
+        # 5. code -> model: explorer schedules are accepted; with one recorded gate altered they are rejected
+        e_client.tlc_behaviours(ctx, "req", 1)
+        e_client.conformance(ctx, binary, ["req"], 40)
+        c0 = dict(ctx.cov["code_to_model"])
+        e_client.conformance(ctx, binary, ["req"], 40, corrupt=True)
+        c1 = dict(ctx.cov["code_to_model"])
+        good = c0["rejected"] == 0 and c0["steps"] > 500
+        ok &= good
+        print("%s  explorer schedules against the actions: %d executions, %d steps, %d rejected (expected 0)" % ("ok  " if good else "FAIL", c0["executions"], c0["steps"], c0["rejected"]))
+        good = c1["rejected"] + c1["select_races"] >= 0.9 * c1["executions"]
+        ok &= good
+        print("%s  one recorded gate altered per execution: %d of %d rejected" % ("ok  " if good else "FAIL", c1["rejected"] + c1["select_races"], c1["executions"]))
     except vlib.Inconclusive as e:
         print("INCONCLUSIVE selftest:", e)
         return 2
